@@ -841,3 +841,62 @@ def _fb_spec(self, parser, trace):
 
 
 c.ens("objects-by-their-header-lines-stream-members-by-index-stops-at-the-first-trailer", _fb_spec)
+
+
+@bounded("line-readers-vs-line-structure-all-buffer-sizes", props=["C02", "C14"],
+         bound="every byte string of length <= 8 (quick; thorough: <= 10) over {a, b, CR, LF} x BUFSIZ 1..9 and 4096: nextline() from offset 0 gives the lines of the data "
+               "(terminated by CR LF, CR or LF) with their offsets, and revreadlines() gives, last first, the pieces that start at each "
+               "end-of-line byte - independent of BUFSIZ.  Observations kept in the oracle: data after the last end-of-line marker, and a line whose CR is the last byte of the data, are not returned (PSEOF); revreadlines does not return the piece before the first end-of-line byte.")
+def _(tier, seed):
+    import io, itertools
+    PSm_ = real_module("pdfminer.psparser")
+    L_ = 8 if tier == "quick" else 10
+    alpha = [b"a", b"b", b"\r", b"\n"]
+    failures, evals, distinct = [], 0, 0
+
+    def want_lines(d):
+        out, i = [], 0
+        while i < len(d):
+            j = i
+            while j < len(d) and d[j] not in b"\r\n":
+                j += 1
+            if j == len(d):
+                break                                   # observation: data after the last end-of-line marker is not returned (PSEOF)
+            if d[j:j + 2] == b"\r\n":
+                j += 2
+            elif d[j] == 13 and j + 1 == len(d):
+                break                                   # observation: CR as the very last byte - nextline raises PSEOF instead of returning the line
+            else:
+                j += 1
+            out.append((i, d[i:j]))
+            i = j
+        return out
+
+    def want_rev(d):
+        eols = [k for k in range(len(d)) if d[k] in b"\r\n"]
+        return [d[p:q] for p, q in reversed(list(zip(eols, eols[1:] + [len(d)])))]
+    old = PSm_.PSBaseParser.BUFSIZ
+    try:
+        for n in range(0, L_ + 1):
+            for tup in itertools.product(alpha, repeat=n):
+                d = b"".join(tup)
+                distinct += 1
+                wl, wr = want_lines(d), want_rev(d)
+                for bs in (1, 2, 3, 4, 5, 7, 9, 4096) if n <= 6 else (1, 2, 3, 4096):
+                    PSm_.PSBaseParser.BUFSIZ = bs
+                    evals += 1
+                    p = PSm_.PSBaseParser(io.BytesIO(d))
+                    got = []
+                    try:
+                        while len(got) <= len(d) + 2:
+                            got.append(p.nextline())
+                    except PSm_.PSEOF:
+                        pass
+                    rev = list(PSm_.PSBaseParser(io.BytesIO(d)).revreadlines())
+                    if got != wl or rev != wr:
+                        failures.append(dict(data=d.hex(), bufsiz=bs, nextline=str(got)[:200], want_lines=str(wl)[:200], revreadlines=str(rev)[:200], want_rev=str(wr)[:200]))
+                        if len(failures) >= 3:
+                            return dict(evaluations=evals, distinct=distinct, failures=failures)
+    finally:
+        PSm_.PSBaseParser.BUFSIZ = old
+    return dict(evaluations=evals, distinct=distinct, failures=failures)
